@@ -195,6 +195,8 @@ def st_Assign(eng, node, st):
         v = eng.ev(node.value, st)
     finally:
         st.hint_ek = None
+    if hk and v.k == 'none' and isinstance(hk, tuple):
+        v = Val(hk, z3.IntVal(0))       # x = None for a variable declared with a (nullable) reference kind
     if hk and isinstance(v.k, tuple) and v.k[0] == 'list' and v.k[1] == 'none' and hk[0] == 'list':
         v = Val(hk, v.t)        # [None] * n declared as a list of (nullable) references
     for t in node.targets:
